@@ -130,6 +130,7 @@ class Module(object):
         self.elems = []      # (offset instr, [func idx])
         self.datas = []      # (mode 'active'|'passive', offset instr|None, bytes)
         self.func_names = None   # dict idx -> bytes, or list of (idx, bytes) for exotic name sections
+        self.name_subsections = None   # extra subsections of the name section: list of (id, payload), e.g. module name (0), local names (2)
         self.customs = []    # (position index, name bytes, payload bytes) position = before section id order slot
         self.datacount = None    # None: emit iff needed; True/False force
 
@@ -234,15 +235,16 @@ class Knobs(object):
     """Encoding choices. chooser: object with .below(n) -> int in [0,n); None = canonical encoding."""
 
     def __init__(self, chooser=None, pad_prob_pct=0, customs=False, data_flag2=False, empty_sections=False,
-                 datacount=False):
+                 datacount=False, local_groups=False):
         self.ch = chooser
         self.pad = pad_prob_pct
         self.customs = customs
         self.data_flag2 = data_flag2
         self.empty_sections = empty_sections
         self.datacount = datacount
+        self.local_groups = local_groups      # locals vectors with split runs and zero-count entries (same locals, other grouping)
         self.stats = {'padded_body': 0, 'padded_section': 0, 'customs': 0, 'flag2': 0, 'empty_sections': 0,
-                      'datacount': 0}
+                      'datacount': 0, 'local_groups': 0}
         self.in_body = False
 
     def want_pad(self):
@@ -452,6 +454,24 @@ class Encoder(object):
                     groups[-1][0] += 1
                 else:
                     groups.append([1, t])
+            if k.local_groups and k.flip(40):
+                # spec-equivalent regrouping: runs split in two, entries of count 0 (any type) in front, between and behind
+                k.stats['local_groups'] += 1
+                g2 = []
+                if k.flip(50):
+                    g2.append([0, (I32, I64, F32, F64)[k.pick(4)]])
+                for n, t in groups:
+                    if n >= 2 and k.flip(50):
+                        a = 1 + k.pick(n - 1)
+                        g2.append([a, t])
+                        if k.flip(30):
+                            g2.append([0, (I32, I64, F32, F64)[k.pick(4)]])
+                        g2.append([n - a, t])
+                    else:
+                        g2.append([n, t])
+                    if k.flip(25):
+                        g2.append([0, (I32, I64, F32, F64)[k.pick(4)]])
+                groups = g2
             code = self.vec([self.u(n) + bytes([VT_BYTE[t]]) for n, t in groups]) + self.expr(f.body)
             bodies.append(self.u(len(code)) + code)
         k.in_body = False
@@ -484,10 +504,13 @@ class Encoder(object):
         if k.customs and k.flip(25):
             k.stats['customs'] += 1
             out.append(self.custom(b'vf.tail', b'\x00\x01\x02'))
-        if m.func_names is not None:
-            items = sorted(m.func_names.items()) if isinstance(m.func_names, dict) else list(m.func_names)
-            sub = self.vec([self.u(i) + self.name(n) for i, n in items])
-            out.append(self.custom(b'name', b'\x01' + self.u(len(sub)) + sub))
+        if m.func_names is not None or getattr(m, 'name_subsections', None):
+            subs = list(getattr(m, 'name_subsections', None) or [])
+            if m.func_names is not None:
+                items = sorted(m.func_names.items()) if isinstance(m.func_names, dict) else list(m.func_names)
+                subs.append((1, self.vec([self.u(i) + self.name(n) for i, n in items])))
+            subs.sort(key=lambda x: x[0])
+            out.append(self.custom(b'name', b''.join(bytes([sid]) + self.u(len(pl)) + pl for sid, pl in subs)))
         return b''.join(out)
 
 
@@ -720,7 +743,9 @@ def decode(b):
                                 i = sr.u()
                                 m.func_names[i] = sr.name()
                         else:
-                            sr.p += ssz
+                            if m.name_subsections is None:
+                                m.name_subsections = []
+                            m.name_subsections.append((sub, bytes(sr.take(ssz))))
                 except DecodeError:
                     pass
             else:
